@@ -85,12 +85,16 @@ def steps_strategy(extended, restart):
         a = list(draw(add))
         a[3] = slot
         out = [a, ["pull", wk, []], ["run"], ["killid", slot], list(a)]
-        out.append(draw(st.sampled_from([["disconnect", wk, [0]], ["finish", wk, 0, "ok"], ["run"], ["pull", draw(w), []]])))
+        tail = draw(st.integers(0, 4))
+        if tail == 0:
+            out += [["pull", draw(w), []], ["run"], ["disconnect", wk, [0]]]  # the new generation is held elsewhere when the old holder leaves
+        else:
+            out.append([["disconnect", wk, [0]], ["finish", wk, 0, "ok"], ["run"], ["pull", draw(w), []]][tail - 1])
         return out
 
     burst = st.lists(add, min_size=2, max_size=3).map(lambda ts: [list(t) for t in ts])
     return st.one_of(single, single, single, blocked_then_pushes(), held_job(), burst, held_and_done() if restart else held_job(),
-                     killed_and_readded() if extended else burst)
+                     killed_and_readded())
 
 
 def flatten(chunks, limit):
